@@ -76,6 +76,24 @@ Definition example_tree : stmts :=
                     (EDict (P 11 18 11 32) (DCons (OSome (EName (P 11 19 11 20) "b")) (EList (P 11 22 11 26) (ECons (EStar (P 11 23 11 25) (EName (P 11 24 11 25) "c")) ENil))
                                             (DCons ONone (EName (P 11 30 11 31) "d") DNil)))
                     (ESlice (P 11 33 11 36) (OSome (EInt (P 11 33 11 34) 1)) (OSome (EInt (P 11 35 11 36) 2)) ONone)))) SNil)) SNil))) SNil).
+(* ... and  x = [f(i, None) for i in y if i is not None if True]
+            z = {k: ... for k, v in (m for m in n)}                     (constants, Ellipsis, comprehensions) *)
+Definition example_comprehension : stmts :=
+  SCons (SAssign (P 1 0 1 52) (ECons (EName (P 1 0 1 1) "x") ENil)
+    (EComp (P 1 4 1 52) CList
+       (ECall (P 1 5 1 15) (EName (P 1 5 1 6) "f") (ACons APos (EName (P 1 7 1 8) "i") (ACons APos (EConst (P 1 10 1 14) CNone) ANil)))
+       (GCons (EName (P 1 20 1 21) "i") (EName (P 1 25 1 26) "y")
+          (ECons (ECompare (P 1 30 1 43) (EName (P 1 30 1 31) "i") (CCons IsNot (EConst (P 1 39 1 43) CNone) CNil))
+          (ECons (EConst (P 1 47 1 51) CTrue) ENil)) GNil)))
+  (SCons (SAssign (P 2 0 2 39) (ECons (EName (P 2 0 2 1) "z") ENil)
+    (EDictComp (P 2 4 2 39) (EName (P 2 5 2 6) "k") (EEllipsis (P 2 8 2 11))
+       (GCons (ETuple (P 2 16 2 20) (ECons (EName (P 2 16 2 17) "k") (ECons (EName (P 2 19 2 20) "v") ENil)))
+          (EComp (P 2 24 2 38) CGen (EName (P 2 25 2 26) "m") (GCons (EName (P 2 31 2 32) "m") (EName (P 2 36 2 37) "n") ENil GNil))
+          ENil GNil))) SNil).
+Example example_comprehension_wf : wf_ss example_comprehension /\ ok_ss example_comprehension.
+Proof. cbn. intuition. Qed.
+Example example_comprehension_agrees : read_native (emit example_comprehension) = Some (convert example_comprehension).
+Proof. vm_compute. reflexivity. Qed.
 Example example_tree_wf : wf_ss example_tree.
 Proof. cbn. intuition. Qed.
 Example witnesses_ok : ok_ss example_tree.
